@@ -2470,33 +2470,45 @@ func checkDetachedCopy(c *Ctx, rule string) {
 		default:
 			return true
 		}
-		// the if-block that appends the split-off ModifyTable
+		// the branch: the clause and the package-local functions it delegates to
+		type scope struct {
+			info *types.Info
+			body []ast.Stmt
+		}
+		scopes := []scope{{info, cc.Body}}
 		for _, st := range cc.Body {
-			ifs, ok := st.(*ast.IfStmt)
-			if !ok {
-				continue
-			}
-			splits := false
-			ast.Inspect(ifs.Body, func(k ast.Node) bool {
-				if cl, ok := k.(*ast.CompositeLit); ok && typeIs(derefType(info.TypeOf(cl)), pSchema, "ModifyTable") {
-					splits = true
+			for _, call := range callsIn(st, true) {
+				if fn := calleeOf(info, call); fn != nil && fn.Pkg() != nil && fn.Pkg().Path() == pSqlx {
+					if hf := c.FuncInfoOf(fn); hf != nil && hf.Decl.Body != nil && hf.Decl != fi.Decl {
+						scopes = append(scopes, scope{hf.Info(), hf.Decl.Body.List})
+					}
 				}
-				return true
-			})
-			if !splits {
-				continue
 			}
+		}
+		splits, cleared, rebuilt := false, false, false
+		for _, sc := range scopes {
+			if len(fkAssignments(c, sc.info, sc.body)) > 0 {
+				cleared = true
+			}
+			for _, st := range sc.body {
+				ast.Inspect(st, func(k ast.Node) bool {
+					if cl, ok := k.(*ast.CompositeLit); ok {
+						t := derefType(sc.info.TypeOf(cl))
+						if typeIs(t, pSchema, "ModifyTable") {
+							splits = true
+						}
+						if typeIs(t, pSchema, kind) {
+							rebuilt = true
+						}
+					}
+					return true
+				})
+			}
+		}
+		if splits {
 			n++
 			c.funcs[fi.Name] = true
-			// the ForeignKeys of a table are reassigned in the branch: directly, or by a copy helper that stores its parameter there
-			cleared, rebuilt := len(fkAssignments(c, info, ifs.Body.List)) > 0, false
-			ast.Inspect(ifs.Body, func(k ast.Node) bool {
-				if x, ok := k.(*ast.CompositeLit); ok && typeIs(derefType(info.TypeOf(x)), pSchema, kind) {
-					rebuilt = true
-				}
-				return true
-			})
-			c.Check(rule, "sqlx.detachReferences|the "+kind+" kept after splitting its foreign keys carries a copy without them", ifs.Pos(), cleared && rebuilt, "detachReferences moves the foreign keys of a %s into a ModifyTable of their own but keeps the original change (ForeignKeys reassigned on a copy: %v, change rebuilt: %v): the reverse of the kept change is computed from a table that still has the keys, so the down migration adds them twice and before the referenced tables exist", kind, cleared, rebuilt)
+			c.Check(rule, "sqlx.detachReferences|the "+kind+" kept after splitting its foreign keys carries a copy without them", cc.Pos(), cleared && rebuilt, "detachReferences moves the foreign keys of a %s into a ModifyTable of their own but keeps the original change (ForeignKeys reassigned on a copy: %v, change rebuilt: %v): the reverse of the kept change is computed from a table that still has the keys, so the down migration adds them twice and before the referenced tables exist", kind, cleared, rebuilt)
 		}
 		return true
 	})
